@@ -56,3 +56,53 @@ prop(
     "selection of the served entry.",
     [R_SCHED_MODEL],
 )
+
+from .rules import spill  # noqa: E402
+
+prop(
+    "C10",
+    [
+        ("R22", spill.r22_pack),
+        ("R23", spill.r23_spillfree),
+        ("R24", spill.r24_spillfmt),
+        ("R25", spill.r25_spillwire),
+    ],
+    "Static: (R22) typestate packed/unpacked over every read of a spill container's payload "
+    "slot: no packed entry (possibly a file name) reaches a return, arithmetic or a foreign "
+    "call without _unpack; (R23) every eviction removes the file / decrements the RAM counter "
+    "in the right branch, and Composition's finalize path reaches, for every class owning a "
+    "spill container, code that removes all remaining files; (R24) writer/reader agree on "
+    "masked payloads and on the unit domain of the label; (R25) file names lie below "
+    "memory_location, are unique per slot and spill, and Composition hands limit/location to "
+    "all outputs and collected adapters before data flows. NOT decided: bit-equality of the "
+    ".npy round trip.",
+    ["np.save cannot persist a mask (numpy axiom)"],
+)
+
+from .rules import life  # noqa: E402
+
+prop(
+    "C03",
+    [
+        ("R06", life.r06_life),
+        ("R07", life.r07_status),
+        ("R08", life.r08_advance),
+        ("R05", sched.r05_select),
+        ("R03", sched.r03_r09_step),
+    ],
+    "Static: (R06) life-cycle calls of components and adapters appear in the order initialize, "
+    "connect, validate, update, finalize on every path of Composition, each followed by a status "
+    "check, finalize post-dominates the loop, adapters are finalized once each; (R07) the "
+    "typestate tables of SDK wrappers, hooks and driver agree (a status a hook may set and the "
+    "driver branches on is kept, accepted, and excluded from selection); (R08) every in-repo "
+    "time component advances its clock exactly once per update; (R05/R03) one update per loop "
+    "iteration and strict termination test. NOT decided: finiteness (needs positive steps), "
+    "actual final times.",
+)
+
+from .rules import grid, misc  # noqa: E402
+
+prop("C14", [("R31", grid.r31_memo)], "R31 memo invalidation (more rules pending).")
+prop("C15", [("R19", grid.r19_taxis)], "R19 time-axis discipline (more rules pending).")
+prop("C20", [("R14", misc.r14_fresh)], "R14 provider freshness (more rules pending).")
+prop("C16", [("R35b", misc.r35b_specside), ("R41", misc.r41_masktruth)], "R35b/R41 (more rules pending).")
